@@ -7,7 +7,8 @@ PROPS="${@:-C01 C02 C03 C04 C05 C06 C07 C08 C09 C10 C11 C12 C13 C14 C15 C16 C17 
 cd /repo || exit 2
 if ! git diff --quiet; then echo "/repo has uncommitted changes"; exit 2; fi
 git apply "$PATCH" || { echo "patch does not apply"; exit 2; }
-trap 'git -C /repo checkout -- . ; git -C /repo clean -fdq tests 2>/dev/null' EXIT
+# the runs below rewrite /verif/evidence/*.json against the PATCHED tree: restore the committed (unchanged-tree) files afterwards
+trap 'git -C /repo checkout -- . ; git -C /repo clean -fdq tests 2>/dev/null; git -C /verif checkout -- evidence 2>/dev/null' EXIT
 (cd /repo && cargo test --offline >/tmp/try_patch_tests.log 2>&1; echo "existing tests rc=$?")
 cd /verif
 for p in $PROPS; do
